@@ -289,9 +289,9 @@ ImplDeclared(lk, v) == IF lk = "int" THEN (IF v >= 0 THEN v ELSE -1) ELSE IF lk 
 EndstreamAt(D, pos) == LET j == SkipWS(D, pos + 1) IN KeywordAt(D, j)
 FindEOLKw(D) == LET cand == {i \in 1..Len(D) : IsEOL(D[i]) /\ KeywordAt(D, i + 1)}
                 IN IF cand = {} THEN 0 ELSE CHOOSE i \in cand : \A k \in cand : i <= k
-Trim(D, l) == IF l <= 0 THEN l
-              ELSE IF D[l] = 10 THEN (IF l >= 2 /\ D[l-1] = 13 THEN l - 2 ELSE l - 1)
-              ELSE IF D[l] = 13 THEN l - 1 ELSE l
+\* trimTrailingEOL: the pattern matched one end-of-line byte; if that byte is
+\* the LF of a CR LF marker, the CR is not data either
+Trim(D, l) == IF l >= 1 /\ l + 1 <= Len(D) /\ D[l] = 13 /\ D[l + 1] = 10 THEN l - 1 ELSE l
 ImplExtent(D, declared) ==
   IF declared >= 0 /\ declared <= Len(D) /\ EndstreamAt(D, declared) THEN declared
   ELSE LET p == FindEOLKw(D) IN IF p = 0 THEN -1 ELSE Trim(D, p - 1)
